@@ -210,46 +210,52 @@ Fixpoint p_names (fuel : nat) (ts : list token) : option (list string * list tok
 Definition stop_rbrace (ts : list token) := peek_is KRBrace ts.
 Definition follow_elem (ts : list token) := peek_in [KIdent; KMul; KRBrace] ts.
 
+(* parseElemExpr, parameterised by the recursive parsers (p_dt f, p_names f) *)
+Definition elem_finish (names : list string) (d : dtype) (r : list token) : option (elem * list token) :=
+  if peek_in [KRaw; KMul; KIdent; KRBrace] r then
+    match r with
+    | t :: r' => if is KRaw t then Some ((names, d, Some (tx t)), r') else Some ((names, d, None), r)
+    | [] => None
+    end
+  else None.
+
+Definition p_elem_with (pd : list token -> option (dtype * list token))
+                       (pn : list token -> option (list string * list token)) : P elem := fun ts =>
+  match ts with
+  | t :: r =>
+    if is KMul t then
+      match r with
+      | x :: r' => if is KIdent x then elem_finish [] (DPtr (base_or_any (tx x))) r' else None
+      | [] => None
+      end
+    else if is KIdent t then
+      if is_keyword (tx t) then None
+      else match r with
+           | [] => None
+           | n :: _ =>
+             (* the one line-sensitive decision of the grammar: an identifier followed by a
+                line break (or by a tag) is an embedded field *)
+             if tnl n || is KRaw n then elem_finish [] (base_or_any (tx t)) r
+             else if peek_in [KComma; KIdent; KLBrack; KAny; KMul; KLBrace] r then
+               match pn r with
+               | Some (more, r1) =>
+                 match pd r1 with
+                 | Some (d, r2) => elem_finish (tx t :: more) d r2
+                 | None => None
+                 end
+               | None => None
+               end
+             else None
+           end
+    else None
+  | [] => None
+  end.
+
 Fixpoint p_dt (fuel : nat) (ts : list token) {struct fuel} : option (dtype * list token) :=
   match fuel with
   | O => None
   | S f =>
-    let p_elem : P elem := fun ts =>
-      (* parseElemExpr *)
-      let finish (names : list string) (d : dtype) (r : list token) :=
-        if peek_in [KRaw; KMul; KIdent; KRBrace] r then
-          match r with
-          | t :: r' => if is KRaw t then Some ((names, d, Some (tx t)), r') else Some ((names, d, None), r)
-          | [] => None
-          end
-        else None in
-      match ts with
-      | t :: r =>
-        if is KMul t then
-          match r with
-          | x :: r' => if is KIdent x then finish [] (DPtr (base_or_any (tx x))) r' else None
-          | [] => None
-          end
-        else if is KIdent t then
-          if is_keyword (tx t) then None
-          else match r with
-               | [] => None
-               | n :: _ =>
-                 if tnl n || is KRaw n then finish [] (base_or_any (tx t)) r
-                 else if peek_in [KComma; KIdent; KLBrack; KAny; KMul; KLBrace] r then
-                   match p_names f r with
-                   | Some (more, r1) =>
-                     match p_dt f r1 with
-                     | Some (d, r2) => finish (tx t :: more) d r2
-                     | None => None
-                     end
-                   | None => None
-                   end
-                 else None
-               end
-        else None
-      | [] => None
-      end in
+    let p_elem : P elem := p_elem_with (p_dt f) (p_names f) in
     match ts with
     | [] => None
     | t :: r =>
@@ -694,9 +700,10 @@ Fixpoint p_stmts (fuel : nat) (gas : nat) (ts : list token) : option api :=
   end.
 
 (* Parser.Parse: fuel = number of tokens + 1 bounds every recursion (each call consumes a token) *)
+(* An ILLEGAL token needs no special case: every token the parser consumes is tested for its
+   kind, so an illegal token makes some expectation fail (as in parser.go). *)
 Definition parse (ts : list token) : option api :=
-  if existsb (is KIllegal) ts then None
-  else p_stmts (S (List.length ts)) (S (List.length ts)) ts.
+  p_stmts (S (List.length ts)) (S (List.length ts)) ts.
 
 (* ---------------------------------------------------------------- printer *)
 
@@ -844,3 +851,62 @@ Definition norm (a : api) : api := flat_map norm_stmt a.
 (* the model formatter *)
 Definition fmt (ts : list token) : option (list token) :=
   match parse ts with Some a => Some (print (norm a)) | None => None end.
+
+(* ---------------------------------------------------------------- well-formed syntax *)
+(* The side conditions under which [print] is faithful: exactly the lexical restrictions the
+   parser itself imposes (keyword checks, "any"/"map"/"returns" being special, pointer targets,
+   shape of embedded fields, non-empty lists where the grammar has "+") plus: no adjacent
+   identifiers inside a path segment (the Go parser concatenates them, "/a b" = "/ab"). *)
+Definition wf_base (s : string) : bool :=
+  negb (is_keyword s) && negb (String.eqb s "any") && negb (String.eqb s "map").
+Definition wf_name (s : string) : bool := negb (is_keyword s).
+
+Definition not_struct (d : dtype) : bool := match d with DStruct _ => false | _ => true end.
+Definition embeddable (d : dtype) : bool :=
+  match d with
+  | DBase _ | DAny => true
+  | DPtr (DBase _) | DPtr DAny => true
+  | _ => false
+  end.
+
+Fixpoint wf_dt (d : dtype) : bool :=
+  match d with
+  | DBase s => wf_base s
+  | DAny | DIface => true
+  | DStruct es =>
+    forallb (fun e : elem =>
+               let '(names, d', _) := e in
+               forallb wf_name names && wf_dt d' &&
+               match names with [] => embeddable d' | _ => true end) es
+  | DArray _ d' | DSlice d' => wf_dt d'
+  | DMap k v => wf_dt k && wf_dt v
+  | DPtr d' => not_struct d' && wf_dt d'
+  end.
+
+Definition wf_texpr (e : texpr) : bool := let '(n, _, d) := e in wf_name n && wf_dt d.
+
+Definition not_returns (s : string) : bool := negb (String.eqb s "returns").
+Definition wf_pseg (s : pseg) : bool :=
+  not_returns (match ps_head s with PId x | PInt x => x end) &&
+  forallb (fun e : psep * string => match fst e with SepSub => true | SepNone => false end) (ps_tail s).
+Definition wf_path (p : path) : bool :=
+  forallb wf_pseg (p_segs p) && match p_segs p with [] => p_trail p | _ => true end.
+Definition wf_route (r : route) : bool := mem (r_method r) http_methods && wf_path (r_path r).
+Definition wf_item (i : item) : bool := wf_route (i_route i).
+Definition nonempty {A} (l : list A) : bool := match l with [] => false | _ => true end.
+Definition wf_sval (v : sval) : bool :=
+  match v with
+  | SVList _ xs | SVSubs _ xs => nonempty xs
+  | SVPath None segs => nonempty segs
+  | _ => true
+  end.
+Definition wf_stmt (s : stmt) : bool :=
+  match s with
+  | SType e => wf_texpr e
+  | STypes l => forallb wf_texpr l
+  | SService srv _ _ its =>
+    match srv with Some l => forallb (fun e : skv => wf_sval (snd e)) l | None => true end &&
+    forallb wf_item its
+  | _ => true
+  end.
+Definition wf (a : api) : bool := forallb wf_stmt a.
